@@ -40,7 +40,7 @@ class C06(object):
                 continue
             a = gen.rand_dist_case(rng, nmin=n, nmax=n, bases=['linear'], klasses=(klass,), allow_space=False,
                                    allow_names=False)
-            rel = rng.choice(['equal', 'nested', 'overlap', 'disjoint', 'same'])
+            rel = rng.choice(['equal', 'nested', 'overlap', 'disjoint', 'same', 'shifted'])
             b = self.related(rng, a, rel)
             # scramble storage of b: dense / custom space in a different order
             if rng.random() < 0.5:
@@ -96,6 +96,17 @@ class C06(object):
             b['outs'] = outs[:]
             b['pmf'] = a['pmf'][:]
             b['alphabets'] = a['alphabets']
+            return b
+        if rel == 'shifted':
+            # same alphabets, same number of outcomes, different members: cyclically shift one coordinate
+            i = rng.randrange(n)
+            al = a['alphabets'][i]
+            nxt = {x: al[(al.index(x) + 1) % len(al)] for x in al}
+            new = [o[:i] + [nxt[o[i]]] + o[i + 1:] for o in outs]
+            b['outs'] = new
+            b['pmf'] = a['pmf'][:] if rng.random() < 0.5 else a['pmf'][1:] + a['pmf'][:1]
+            b['alphabets'] = a['alphabets']
+            b['space'] = None
             return b
         if rel == 'equal':
             new = outs[:]
@@ -227,6 +238,15 @@ class C06(object):
                 ref['alpha'] = 4 * (1 - s2) / (1 - alpha * alpha)
                 got['alpha'] = float(D.alpha_divergence(da, db, alpha))
                 mo['alpha'] = self.model_div(drv, 'alpha', pa, alpha)
+        if alpha > 1 and not supp_ok:
+            # orders above one with p > 0 where q = 0: the power sum diverges (the model's sum runs over the
+            # common support only, so this clause is decided by the definition alone)
+            for name, f in (('renyi', D.renyi_divergence), ('tsallis', D.tsallis_divergence), ('hellinger_div', D.hellinger_divergence)):
+                v = float(f(da, db, alpha))
+                if not (math.isinf(v) and v > 0):
+                    r.oracle_fail = '%s of order %s = %r although the first support is not inside the second (+inf expected)' % (name, alpha, v)
+                    r.detail = {'got': {name: v}}
+                    return
         if alpha == 1:
             got['renyi(1)'] = float(D.renyi_divergence(da, db, 1))
             ref['renyi(1)'] = ref['kl']
